@@ -46,6 +46,11 @@ def snapshot(s):
             {k: np.array(s.atoms.view[k]).tolist() for k in s.atoms.prop()})
 
 
+def _bits(st, k):
+    import zlib
+    return zlib.crc32((json.dumps(st['args'], sort_keys=True) + str(k)).encode()) >> 3
+
+
 def do_step(am, s, st, k, orig_n):
     from atomman import defect
     act, a = st['act'], st['args']
@@ -72,7 +77,7 @@ def do_step(am, s, st, k, orig_n):
                 p = p + np.array([1 / 128, -1 / 128, 1 / 128])
             if scale:
                 p = s.box.position_cartesian_to_relative(p)
-            kw['pos'] = p.tolist() if k % 2 else p
+            kw['pos'] = p.tolist() if _bits(st, k) & 1 else p
     if act == 'interstitial':
         kw['pos'] = (np.array(a['s'], dtype=float) / 8) if scale else (np.array(a['p'], dtype=float) / Q)
         kw['scale'] = scale
@@ -88,7 +93,7 @@ def do_step(am, s, st, k, orig_n):
     if a.get('q', -1) != -1:
         kw['q'] = a['q']
         kw['w'] = a['q'] * np.array([1.0, 0.5])
-    if k % 2:
+    if _bits(st, k) & 2:      # route through the generic entry point; chosen independently of list/array input
         return defect.point(s, ptd_type={'vacancy': 'v', 'interstitial': 'i', 'substitutional': 's', 'dumbbell': 'db'}[act], **kw)
     return getattr(defect, act)(s, **kw)
 
